@@ -7,12 +7,13 @@ from zonelib import AMAX, BMIN, MAXI, MINI, NPD, NPS
 
 META = {
     "property": "C04",
-    "proof_modules": ["PyodaProofs.C04"],
+    "proof_modules": ["PyodaProofs.C04", "PyodaProofs.C04Spec"],
     "drivers": ["drv_zone"],
     "theorems": [
         "Pyoda.C04.search_spec", "Pyoda.C04.precalc_get_contains", "Pyoda.C04.precalc_get_unique",
         "Pyoda.C04.precalc_abut", "Pyoda.C04.periodsWF_sound", "Pyoda.C04.fixed_partition",
         "Pyoda.C04.tail_seam", "Pyoda.C04.altmap_get_shape",
+        "Pyoda.C04.precalc_spec", "Pyoda.C04.agrees", "Pyoda.C04.dataOK_sound", "Pyoda.C04.dataOK_gives_spec",
     ],
     "trusted_base": [
         "zone data (periods, tail rules) are read from the code's decoded objects and sent to the model per run; C06 ties them to the file bytes",
@@ -133,6 +134,8 @@ def run(ctx):
     wf = model_eval(defs + [f"zone.wf {sid}" for sid, _, _ in zs], "drv_zone")[len(defs):]
     minlen = AMAX
     n_tail = 0
+    n_dataok = 0
+    not_dataok = []
     for (sid, rid, z), r in zip(zs, wf):
         p = r.split(" ")
         if p[0] == "fixed":
@@ -144,8 +147,15 @@ def run(ctx):
             ctx.add_failure({"key": "min-max-offset", "what": f"{z.id}: advertised min/max offset {z.min_offset.seconds}/{z.max_offset.seconds}, data give {p[4]}/{p[5]}"}, op=f"zone.wf {sid}", source="model-eval")
         if Z.zone_data(z)[1] is not None:
             n_tail += 1
+        elif len(p) > 6:
+            if p[6] == "1":
+                n_dataok += 1
+            else:
+                not_dataok.append(z.id)
     ctx.note("shortest_finite_period_hours", minlen / 3.6e12)
     ctx.note("zones_with_tail", n_tail)
+    ctx.note("tailless_zones_with_C05_hypotheses_discharged_by_dataOK_and_theorem", n_dataok)
+    ctx.note("tailless_zones_failing_dataOK", not_dataok[:20])
     ctx.oracles["data.PeriodsWF"] = {"cases": len(zs), "failures": sum(1 for f in ctx.failures if f["source"].startswith("model-eval")), "exhaustive": True}
     # (b) point queries
     ops = list(defs)
